@@ -64,6 +64,7 @@ Outs(h, RR) == {Out(h, r) : r \in RR}
 
 Decide(m, tb, mcast) ==
   IF ~IsReqCode(m.code) /\ Class(m.code) \in {1, 6, 7} THEN {Out(<< >>, IF m.ty = CON /\ ~mcast THEN <<"rst">> ELSE <<"none">>)}
+  ELSE IF ~IsReqCode(m.code) THEN {}                                              \* Empty messages and responses are not requests: outside C10
   ELSE IF m.ty \in {ACK, RST} THEN {Out(<< >>, <<"none">>)}                      \* a request code in an ACK / RST: ignored
   ELSE IF mcast /\ m.ty # NON THEN {Out(<< >>, <<"none">>)}                       \* RFC 7252 8.1
   ELSE
@@ -86,7 +87,8 @@ Decide(m, tb, mcast) ==
                  THEN (IF isWK THEN Outs(<< >>, ErrSent(m, 133, mcast))                          \* .well-known/core has only GET: 4.05
                        ELSE IF m.code = DELETE THEN Outs(<< >>, ErrSent(m, 66, mcast))            \* 2.02
                        ELSE Outs(<< >>, ErrSent(m, 132, mcast))) ELSE {}                          \* 4.04
-      rINM    == IF found /\ HasOpt(m, 5) THEN Outs(<< >>, ErrSent(m, 140, mcast)) ELSE {}       \* 4.12
+      wkLib   == isWK /\ ~(tb.unknown.present /\ tb.unknown.wk /\ UnknownHandles(m, tb))   \* .well-known/core served by the library: it exists
+      rINM    == IF (found \/ wkLib) /\ HasOpt(m, 5) THEN Outs(<< >>, ErrSent(m, 140, mcast)) ELSE {}       \* 4.12
       rNoHnd  == IF found /\ HandlerCode(tb.res[ri], m.code) < 0 THEN Outs(<< >>, ErrSent(m, 133, mcast)) ELSE {}   \* 4.05
       rFetch  == IF m.code = FETCH /\ ~HasOpt(m, 12) /\ ((found /\ HandlerCode(tb.res[ri], m.code) >= 0) \/ (~found /\ UnknownHandles(m, tb)))
                  THEN Outs(<< >>, ErrSent(m, 143, mcast)) ELSE {}                                 \* 4.15
